@@ -1054,7 +1054,7 @@ def run(ctx: C.Ctx):
     evaluations += c10_choice.run_extra_seeds(ctx, C, transpile, progs, seeds[0], extra_seeds)
     dist["type_join_programs"] = {"programs": sum(1 for p in progs if p["origin"].startswith("join")), "extra_hash_seeds": extra_seeds,
                                   "by_kind": {k: sum(1 for p in progs if p["origin"].startswith("join " + k)) for k in
-                                              ("returns", "list-display", "ifexp", "branch-retype", "append", "signatures")},
+                                              ("returns", "neighbours", "list-display", "ifexp", "branch-retype", "append", "signatures")},
                                   "returns_of_two_or_more_list_types_and_no_scalar": sum(
                                       1 for p in progs if p["origin"].startswith("join returns") and len(set(p["origin"].split()[-1].split("+"))) > 1
                                       and all(x.startswith("list") for x in p["origin"].split()[-1].split("+")))}
@@ -1349,7 +1349,7 @@ def run(ctx: C.Ctx):
         "evaluations": evaluations + n_corr + n_prom + n_sorted + n_helper + n_join,
         "distinct_nontrivial": len({p["src"] for p in progs if p["origin"] != "device"}
                                    & {s["src"] for s in skels if sum(1 for _ in _iter_hoists(s.get("model0", {}))) > 0}) + multi + n_prom + nt_roles + nt_tw + nt_pu + nt_sp,
-        "rule": "skeleton programs: templates (k = 0..6 names first assigned in an if / if-else / if-elif-else / while / for / try body, at top level, in a function, in the main loop, nested) + seeded random nested programs; device programs: random subsets of every device class with 0..6 instances, callbacks, lists, multi-signature functions, tuple swaps; mixed = both. Every program is transpiled in one subprocess per hash seed and per dictated set order (the name `set` of parser.py/emitter.py bound to a subclass iterating sorted / reverse sorted / in a keyed pseudo-random order), then in one process twice in a row, in reverse order between unrelated programs, shuffled, and (a sample) in fresh processes; sha256 of the text is compared. Name collisions (c10_roles.py): for every ordered pair (a, b) of 25 roles an identifier can have, with a name of its own, the sessions `A B B'` / `all A, then B B' reversed` against `B B'` alone (A = name in role a, B = same name in role b with all probes of b, B' = B + one probe of a); 60 (240) pool programs giving 2-4 of 6 pool names random roles, in 3 (6) orders in one process and after a module reset; parse/emit interleavings (p_i p_j e_j e_i, p_i p_j e_i e_j e_i, p_i e_i e_i, p_i t_j e_i); 4 concurrent threads; 220 (900) + 60 device-registry programs of the DevSession fragment in two orders, compared with transl_dev. Half of the random skeleton programs and most templates put several new names into one branch (the region the guard of the repaired finding F-C10-promotion-order used to exclude; counted in distribution). Near-collisions (c10_twins.py): 36 (150) collision programs + 24 (90) skeleton programs whose names are a NAME FAMILY (2-6 identifiers that tie under leading zeros / natural order / case / underscores / length / prefix / first-and-last character keys; every family keeps one pair of its first kind) in 2-7 of the sets behind sorted() (buttons with one callback, LCDs with identical animations, ultrasonics, names first assigned in if / if-else / elif / try / while / for bodies at top level, in a function, in the main loop) - they go through every oracle above; TWIN FAMILIES: for each of 26 device methods every distinct spelling (int, float, bool, folded constants, defaults omitted, all positional) at 2 (7) depths, one spelling at 4 (7) depths on two device names, the call with one argument changed; one pin in several device classes; plain statements with equal-valued literals; one source in 11 white-space / comment / line-end variants - 7 sessions in one process each (rotation r starts every family at its r-th member, odd rotations walk the families backwards), a program's text must be the same in all of them and after a module reset (12 (60) sampled); a difference is confirmed and shrunk in fresh processes. Helper sessions: 30 (120) random + 7 fixed sessions of 2-4 programs of 1-5 calls of _emit_duration_ms / _format_float with ints, whole and fractional dyadic floats, bools, negative values and expression text, one session per module reset, against MemoSession.session under the regenerated cache table. Emit purity (c10_purity.py): every accepted program above + 4 glyph scripts (setup / loop / function / branch) + a break/continue script + the statement catalog of harness/c06_pairs.py in 6 (13, twice) kinds of block (all 65 IR node classes reached, measured): p2 = parse(s); p = parse(s); emit(p); emit(p); emit(parse(other)); emit(p); emit(parse(s)); emit(p2) - one sha256; a failing catalog script is reduced by ddmin; 30 (120) glyph sessions (1-3 scripts, 1-2 displays, rows with bits above 5 / negative / float spellings, random parse/emit op sequences) against EmitSession.esession. Rejected parses: 28 (112) helper families of 14 shapes, each V with 1-2 poisoned twins, sessions V P V P P V | reset | P P V; 14 (112) V's aborted at the quarter (eighth) points and 1 (3) random points of their call sequence by an injected BaseException, then transpiled again; 40 (160) + 3 sessions of 2-5 single-level helper programs (40 % rejected) against VariantSession.vsession. 14 (42) helper programs and 6 (24) glyph scripts also join the main corpus (hash seeds, dictated orders, environments, sessions). Type joins (c10_choice.py): functions whose return statements yield values of two or three different types on different paths (every combination of list element types without a scalar in both orders; 34 (all) other combinations of int / bool / float / String / list[...] ; six control shapes; the result as a global, twice, through a second function, in the main loop), list displays / conditional expressions / append / branch-wise re-typing / several call signatures of mixed scalar types - in the main corpus and under 8 (16) further hash seeds. Builtin-name pairs (c10_choice.py): for each of len abs max min int float bool str, 3 (7) melody names, digital_read / analog_read: A binds the name in 8 of 14 (all 14) roles (the A's the parser rejects included), B uses it in its builtin meaning on literals in 7 positions; one process: reset, B, (A_role, B)* and p A, p B, e A, e B; B must have the text it has alone; a failing pair is confirmed and B shrunk to one position in fresh processes. Non-trivial = programs that hoist at least one declaration, every twin family, every role pair, pool program and accepted device-registry program, device programs whose sorted sites have >= 2 elements, and every dictated-order promotion case.",
+        "rule": "skeleton programs: templates (k = 0..6 names first assigned in an if / if-else / if-elif-else / while / for / try body, at top level, in a function, in the main loop, nested) + seeded random nested programs; device programs: random subsets of every device class with 0..6 instances, callbacks, lists, multi-signature functions, tuple swaps; mixed = both. Every program is transpiled in one subprocess per hash seed and per dictated set order (the name `set` of parser.py/emitter.py bound to a subclass iterating sorted / reverse sorted / in a keyed pseudo-random order), then in one process twice in a row, in reverse order between unrelated programs, shuffled, and (a sample) in fresh processes; sha256 of the text is compared. Name collisions (c10_roles.py): for every ordered pair (a, b) of 25 roles an identifier can have, with a name of its own, the sessions `A B B'` / `all A, then B B' reversed` against `B B'` alone (A = name in role a, B = same name in role b with all probes of b, B' = B + one probe of a); 60 (240) pool programs giving 2-4 of 6 pool names random roles, in 3 (6) orders in one process and after a module reset; parse/emit interleavings (p_i p_j e_j e_i, p_i p_j e_i e_j e_i, p_i e_i e_i, p_i t_j e_i); 4 concurrent threads; 220 (900) + 60 device-registry programs of the DevSession fragment in two orders, compared with transl_dev. Half of the random skeleton programs and most templates put several new names into one branch (the region the guard of the repaired finding F-C10-promotion-order used to exclude; counted in distribution). Near-collisions (c10_twins.py): 36 (150) collision programs + 24 (90) skeleton programs whose names are a NAME FAMILY (2-6 identifiers that tie under leading zeros / natural order / case / underscores / length / prefix / first-and-last character keys; every family keeps one pair of its first kind) in 2-7 of the sets behind sorted() (buttons with one callback, LCDs with identical animations, ultrasonics, names first assigned in if / if-else / elif / try / while / for bodies at top level, in a function, in the main loop) - they go through every oracle above; TWIN FAMILIES: for each of 26 device methods every distinct spelling (int, float, bool, folded constants, defaults omitted, all positional) at 2 (7) depths, one spelling at 4 (7) depths on two device names, the call with one argument changed; one pin in several device classes; plain statements with equal-valued literals; one source in 11 white-space / comment / line-end variants - 7 sessions in one process each (rotation r starts every family at its r-th member, odd rotations walk the families backwards), a program's text must be the same in all of them and after a module reset (12 (60) sampled); a difference is confirmed and shrunk in fresh processes. Helper sessions: 30 (120) random + 7 fixed sessions of 2-4 programs of 1-5 calls of _emit_duration_ms / _format_float with ints, whole and fractional dyadic floats, bools, negative values and expression text, one session per module reset, against MemoSession.session under the regenerated cache table. Emit purity (c10_purity.py): every accepted program above + 4 glyph scripts (setup / loop / function / branch) + a break/continue script + the statement catalog of harness/c06_pairs.py in 6 (13, twice) kinds of block (all 65 IR node classes reached, measured): p2 = parse(s); p = parse(s); emit(p); emit(p); emit(parse(other)); emit(p); emit(parse(s)); emit(p2) - one sha256; a failing catalog script is reduced by ddmin; 30 (120) glyph sessions (1-3 scripts, 1-2 displays, rows with bits above 5 / negative / float spellings, random parse/emit op sequences) against EmitSession.esession. Rejected parses: 28 (112) helper families of 14 shapes, each V with 1-2 poisoned twins, sessions V P V P P V | reset | P P V; 14 (112) V's aborted at the quarter (eighth) points and 1 (3) random points of their call sequence by an injected BaseException, then transpiled again; 40 (160) + 3 sessions of 2-5 single-level helper programs (40 % rejected) against VariantSession.vsession. 14 (42) helper programs and 6 (24) glyph scripts also join the main corpus (hash seeds, dictated orders, environments, sessions). Type joins (c10_choice.py): functions whose return statements yield values of two or three different types on different paths (every combination of list element types without a scalar in both orders; 34 (all) other combinations of int / bool / float / String / list[...] ; six control shapes; the result as a global, twice, through a second function, in the main loop), list displays / conditional expressions / append / branch-wise re-typing / several call signatures of mixed scalar types - in the main corpus and under 8 (16) further hash seeds. Builtin-name pairs (c10_choice.py): for each of len abs max min int float bool str, 2 (7) melody names, digital_read / analog_read, 1 (4) LCD progress styles, 2 (4) LCD animation names: A binds the name in 8 of 16 (all 16) roles (the A's the parser rejects included), B uses it in its builtin meaning on literals in 7 positions; one process: reset, B, (A_role, B)* and p A, p B, e A, e B; B must have the text it has alone; a failing pair is confirmed and B shrunk to one position in fresh processes. Non-trivial = programs that hoist at least one declaration, every twin family, every role pair, pool program and accepted device-registry program, device programs whose sorted sites have >= 2 elements, and every dictated-order promotion case.",
         "samples": [skels[0]["src"], skels[len(skels) // 2]["src"], devs[0]["src"][:1500]],
         "distribution": dist,
         "guard": "none: every generated program is under the byte-identity oracle and the correspondence (C10_order_independent is unconditional). F-C10-promotion-order is repaired by a fix: commit (known_findings.d/C10.json kind=fixed) - a fixed entry suppresses nothing: on a tree without the sorted() calls C10_no_unsorted_set_iteration / C10_repaired_sites_sorted do not check, the witness replay fails and is reported as a VIOLATION",
